@@ -555,7 +555,7 @@ def coq_check_stage(ctx, cases, results, name):
             cost = len(a['triples']) + sum(len(res[qi].get('triples', ())) for qi in idx)
             groups.append((c, lit, idx, cost))
     # parsing budget (numerals handed to coqc): cheapest groups first
-    budget = 60000 if ctx.tier == 'quick' else 900000
+    budget = STAGE_BUDGET[ctx.tier]
     groups.sort(key=lambda g: g[3])
     kept = []
     for g in groups:
@@ -676,7 +676,7 @@ def hub_queries(rng, nodal_only=False, hops=True):
     return qs
 
 
-def hub_cases(rng, tier):
+def hub_cases(rng, tier, extended=False):
     """magnitude dimension: a vertex of degree / a node pair of multiplicity
     beyond the narrow integer widths.  2^7 and 2^8: property oracle + stage-wise
     in-Coq operators (+ the full model on two meshes in the thorough tier);
@@ -687,13 +687,14 @@ def hub_cases(rng, tier):
     for kind in kinds:                               # degree crosses 2^7
         mesh = gen.gen_hub(rng, kind, rng.randint(129, 144))
         out.append({'mesh': mesh, 'queries': hub_queries(rng)})
-    for kind in (kinds if tier == 'thorough' else kinds[:1]):      # 2^8
+    wide = tier == 'thorough' or extended
+    for kind in (kinds if wide else kinds[:1]):      # 2^8
         mesh = gen.gen_hub(rng, kind, rng.randint(257, 272))
         out.append({'mesh': mesh, 'queries': hub_queries(rng)})
     big_kinds = ['star-line', 'cap-tri']
     rng.shuffle(big_kinds)
     bases = rng.sample([2 ** 15, 2 ** 16], 2)
-    for kind, base in list(zip(big_kinds, bases))[:2 if tier == 'thorough' else 1]:
+    for kind, base in list(zip(big_kinds, bases))[:2 if wide else 1]:
         mesh = gen.gen_hub(rng, kind, base + rng.randint(1, 300))
         out.append({'mesh': mesh, 'queries': hub_queries(rng, nodal_only=True, hops=False),
                     'oracle_only': True, 'stagewise': False})
@@ -787,7 +788,52 @@ def type_sweep_cases(rng, types=None):
               {'kind': 'adj', 'nodal': True, 'order1': True, 'via': 'direct'},
               {'kind': 'lap', 'nodal': False, 'order1': True}]
         out.append({'mesh': mesh, 'queries': qs})
+        if t in ('polygon', 'polyhedron'):
+            # ragged rows: the block's data is an object array (the object-dtype
+            # branch of FEMAttribute.ids2indices), alone and next to a regular block
+            m2 = copy.deepcopy(mesh)
+            rows = m2['blocks'][0][1]
+            extra = [max(r[0] for r in m2['nodes']) + 3 + k for k in range(rng.randint(1, 3))]
+            rows[rng.randrange(2)][1].extend(extra)
+            for k, n in enumerate(extra):
+                m2['nodes'].insert(rng.randrange(len(m2['nodes']) + 1), [n, 50 + k, 1, 0])
+            if rng.random() < 0.5:
+                m2['blocks'].insert(rng.randrange(2), ['tri', [[rng.randint(200, 300), rows[0][1][:3]]]])
+            m2['tags'] = dict(m2['tags'], kind='type-sweep:' + t + ':ragged',
+                              n_types=len(m2['blocks']))
+            out.append({'mesh': m2, 'queries': qs + [
+                {'kind': 'grad', 'nodal': True, 'order1': False},
+                {'kind': 'hop', 'nodal': False, 'n': 2, 'self_loop': False, 'order1': False}]})
     return out
+
+
+# body pins (ast.unparse sha at /repo 38049d8) of the functions whose derived
+# integers can outgrow a narrowed dtype.  A changed body is NEVER a violation by
+# itself: it widens the hub stream (all kinds at 2^8, both 2^15 and 2^16, larger
+# in-Coq budget) so that a narrow defect is met in the quick tier as well.
+GRAPH_BODIES = {
+    'calculate_adjacency_matrix': '8e495659ee7cecd1d6da3b95ac4ccdc46adf0a17eadd559886e643111aaa26b0',
+    'calculate_adjacency_matrix_element': '3e3d234dcb18a90a2e80806fcba649eba692ef4c0be4c8a4fb3a5648d6d8e1f5',
+    'calculate_adjacency_matrix_node': 'c09b308991c15928a466355f17146f3637975d8764549c2c4c61a8f931f7137f',
+    'calculate_incidence_matrix': '0ce7771579fbb5235d8a93a933a7854f67e08f5fe33eb68d14e4e35185c1cb59',
+    'calculate_laplacian_matrix': '85588fcdcccd1f8d07ce2a3202aa236bf68c56bdfadecdd301c9e8be6eb30192',
+    'calculate_edge_gradient_matrix': 'e6ef3cc33a5e3f9cdaf4794e07711b0dad4f0a97ab75fb344d8fbd7703668a86',
+    'calculate_e2v_matrix': 'b96a799a94cfeb38bc8f2e9cd75c26d7230c7a9de51fde11745fb6e9beda6bac',
+}
+
+
+def changed_graph_bodies():
+    import ast
+    try:
+        src = (lib.REPO / 'femio' / 'graph_processor.py').read_text()
+        found = {n.name: lib.sha(ast.unparse(n)) for n in ast.walk(ast.parse(src))
+                 if isinstance(n, ast.FunctionDef) and n.name in GRAPH_BODIES}
+    except (OSError, SyntaxError):
+        return sorted(GRAPH_BODIES)
+    return sorted(k for k, v in GRAPH_BODIES.items() if found.get(k) != v)
+
+
+STAGE_BUDGET = {'quick': 60000, 'thorough': 900000}
 
 
 def gen_cases(ctx):
@@ -838,7 +884,12 @@ def gen_cases(ctx):
         c['id'] = len(cases)
         cases.append(c)
     # hub stream: vertex degrees / multiplicities beyond the narrow integer widths
-    for c in hub_cases(ctx.rng, ctx.tier):
+    changed = changed_graph_bodies()
+    ctx.notes['graph_bodies_changed'] = changed
+    if changed and ctx.tier == 'quick':
+        ctx.notes['hub_extended_search'] = 'bodies changed: ' + ', '.join(changed)
+        STAGE_BUDGET['quick'] = 250000
+    for c in hub_cases(ctx.rng, ctx.tier, extended=bool(changed)):
         c['id'] = len(cases)
         cases.append(c)
     # history stream: queries / in-place modification (connectivity assignment,
